@@ -1007,7 +1007,7 @@ func ShapeCases() []*Case {
 	}
 	{
 		f := file("t/v1", "a")
-		f.Add(obj("Foo", &Field{Name: "val", T: T(TString), Attrs: []string{`rules.pattern = "^a\\\\d+ \\"q\\" é😀$"`}}))
+		f.Add(obj("Foo", &Field{Name: "val", T: T(TString), Attrs: []string{`rules.pattern = "^a\\d+ \"q\" é😀$"`}}))
 		add("pattern-with-escapes", f)
 	}
 	return out
